@@ -143,7 +143,7 @@ CHECKS["C13"] = dict(
           "with the config present) returns the original. part unit-concurrent: 2..8 such cases at once (pooled writers/readers). part "
           "banned: the six commands documented as disabled are stopped with an error iff compression is enabled. part e2e: a real proxy with "
           "compression in front of 1..3 simulated masters; histories (2..30 steps + final read-back) of writes by the nine commands (MSET "
-          "over several nodes, HMSET), reads (GET, MGET, GETSET's old value, HGET, HMGET, HGETALL, HVALS), toggling enable through "
+          "over several nodes, HMSET), reads (GET, MGET, GETSET's old value, HGET, HMGET, HGETALL, HVALS, and HSCAN whose reply nests the values one array level deeper; the unit relation reads every stored value back through a bulk, a flat array and an HSCAN-shaped reply), toggling enable through "
           "OnSvcConfigUpdate (config kept present), forcing a MOVED or ASK redirection of the next write (the key's slot is migrated right "
           "before it), and the banned commands; oracle: every reply equals the reference keyspace's reply on the uncompressed data; the "
           "bytes stored in the simulated node satisfy the same stored-form relation (nothing compressed while disabled); banned commands "
@@ -248,7 +248,9 @@ CHECKS["C16"] = dict(
           "ambiguous and accepted either way) must equal the dependency set within the hang deadline (15 s; a goroutine parked in "
           "Subscribe's channel send while the run loop waits for the lock in two dumps 1 s apart ends the wait early) and stay equal after a "
           "quiet period. part grpc (package disc, shared with C08): the real dynamic source (config.New with a DynamicSourceConfig: grpc.Dial, the three real discovery clients, their retry loops and the dependency hook of config/dynamic.go + config/discovery.go), the real store and the real controller against an in-process gRPC discovery server; rapid-generated histories (2..16 steps after 0..3 complete services) of dependency pushes (also bursts of 10..24 names, remove and re-add back to back), configuration and endpoint pushes, killing the dependency / config / endpoint stream, stopping and restarting the server on its port, pauses 1..1300 ms, and settle points. The server answers every subscription with the service's full state (endpoints: current list as added, removed ones - or, in half of the cases, every endpoint it ever had - as removed). Oracle at every settle point and at the end: within 45 s every scope has a live stream whose folded requests (a name in both lists of one request accepted either way) equal the dependency set, every server message is taken, and within 15 s more the store's view equals the server's truth and there is exactly one running processor for every dependency with a valid configuration and a non-empty endpoint list, with that configuration and host set; it stays so after a quiet period. Non-trivial: more than 16 changes were issued while no stream was up, or a Send failure hit the snapshot or the "
-          "first batch; grpc: a stream or the server failed, or one push changed more than 16 dependencies. Distinct by canonical JSON."),
+          "first batch; grpc: a stream or the server failed, or one push changed more than 16 dependencies. Scripted failures return a generated kind of error (plain, io.EOF, gRPC status "
+          "Canceled / Unavailable / DeadlineExceeded / Internal, bare context errors) and killed gRPC streams end with a generated status (Unavailable, Canceled, Internal, DeadlineExceeded, clean EOF) "
+          "while the client's own context is alive: retrying must go on whatever the error says. Distinct by canonical JSON."),
     assumptions=["Subscribe/Unsubscribe are called from one goroutine (the dependency hook), as in production",
                  "the order of a subscribe and an unsubscribe of the same name inside one request is undefined by the wire format"],
     parts=[
@@ -302,7 +304,9 @@ CHECKS["C01"] = dict(
           "go (GET / SET / INCR and, every 5th or 31st, an MGET over 3..120 keys - every key of an MGET is a backend request of its own, so "
           "tens of connections with 33 requests in flight each put more than 1024 requests on one backend connection's queues), values of "
           "1..5000 bytes, optionally all keys of a connection on one node, node reply delay / slow backend writer, and clients that start "
-          "reading only after 0..400 ms (replies back up in the proxy); same oracle. Non-trivial: >= 2 nodes and the node log shows a "
+          "reading only after 0..400 ms (replies back up in the proxy); same oracle. part widepipe: 1..4 connections each writing in one go an MSET of its 8..512 keys (2..6 nodes), "
+          "2..25 rounds of EXISTS / GET / MGET / TOUCH over all of them, DEL, EXISTS and PING: many wide split requests of several connections in flight at once; every reply must be "
+          "exactly the sum / the array in argument order / the value of its own request. Non-trivial: >= 2 nodes and the node log shows a "
           "later-arrived command of one node answered before an earlier one of another. Distinct by canonical JSON."),
     assumptions=["a missing reply is judged by a deadline (20 s; 150 s in the deep part, whose cases are bounded to a few seconds of backend work)"],
     parts=[
@@ -326,7 +330,9 @@ CHECKS["C07"] = dict(
           "time-out 100 ms, 200 ms)) a SET/GET probe for a key of every reachable master must succeed and read back the written value, "
           "and a node whose connections were dropped shows a new accepted connection; after a layout change two successful slot "
           "refreshes must happen within 10 s of redirected traffic and a sweep over up to 40 moved slots then causes 0 new MOVED/ASK; "
-          "after a fail-over requests for the promoted replica's slots must succeed within 10 s. Non-trivial: a fault was followed by "
+          "after a fail-over writes for the promoted replica's slots must succeed within 10 s. Half of the cases run under the read strategy REPLICA or BOTH "
+          "(0..2 replicas per master); op reparent: a replica is re-pointed to another master (every master keeps its address and slots): two successful "
+          "refreshes within 10 s, then 60 reads of keys of both masters cause 0 MOVED/ASK and answer correctly. Non-trivial: a fault was followed by "
           "traffic to the same address, or a layout change moved slots. Distinct by canonical JSON of the history."),
     assumptions=["the periodic slot refresh runs every 50 ms and its minimum spacing is 5 ms in the harness (2 min / 5 s in production): recovery after a fail-over without any redirection is bounded by that period",
                  "connect time-outs against black-holed addresses are not generated (refused connects and resets are)"],
@@ -354,7 +360,10 @@ CHECKS["C02"] = dict(
           "(optionally mid-reply / RST) again and again. part chaos (no hooks): 2..10 connections x 1000..8000 requests with 1..64 in flight "
           "(GET / SET / MGET / MSET over six hash tags, with compression also APPEND, which the backend-side filter stops) while a fault thread "
           "keeps drawing from a generated subset of {connection killed after k commands, connections dropped, node restarted, endpoint set "
-          "replaced, member removed and re-added, slot migrated with MOVED/ASK redirections} every 0.1..3 ms. Oracle: every request written on a connection the harness keeps open receives "
+          "replaced, member removed and re-added, slot migrated with MOVED/ASK redirections} every 0.1..3 ms. part simultaneous: 5..60 rounds per case of ONE split request (MSET / MGET / DEL / EXISTS, "
+          "1..5 keys on each of 2..4 nodes) whose children are completed by different backend goroutines at the same instant: all involved backend connections are dropped while the nodes hold "
+          "their replies, the clients are held at the pause point before their final drain until all of them are there and released together by a spinning barrier (fail+fail), or one node answers and its "
+          "reader is held before it takes the request from the sent queue and released with the others (fail+ok). Oracle: every request written on a connection the harness keeps open receives "
           "exactly one reply (value or error) within the hang deadline (10 s, confirmed by two goroutine dumps 1 s apart), no surplus "
           "bytes, well-formed reply stream; a crash of the test process (close of closed channel = double completion) is a violation. "
           "Non-trivial: a directive fired (the fault hit a request queued / in the writer's hand / awaiting its answer); stress: kills "
@@ -405,7 +414,8 @@ CHECKS["C14"] = dict(
           "master, each sent with 1..3 arguments; part random: rapid-generated batches of 1..25 commands (names from those tables or "
           "random, random letter case, 0..6 arguments, hash-tagged keys; every 1st/2nd/3rd command in inline form in 3 of 5 cases) against 1..3 masters with 0..2 replicas under a generated "
           "read strategy; in a third of the layouts with replicas, 1..2 replica re-parentings (the k-th replica becomes a replica of "
-          "another master) happen between commands, and the commands continue after the proxy refreshed its table twice. Oracle per "
+          "another master) happen between commands, and the commands continue after the proxy refreshed its table twice; in a third of the cases the read strategy is switched 1..3 times "
+          "at run time through OnSvcConfigUpdate, and every later command is judged by the strategy in force. Oracle per "
           "command from the simulated nodes' logs (against the current replica sets): a name outside the documented supported set is answered by "
           "an error and no backend logs an arrival; PING/QUIT/SELECT/INFO/TIME/HOTKEY are answered with no arrival; every arrival of a "
           "forwarded command is at the master owning ref.Slot(key) or one of its replicas; a command Redis flags as write (and EVAL) "
@@ -470,7 +480,10 @@ CHECKS["C11"] = dict(
           "node, MOVED/ASK ping-pong between both nodes) while 1..4 clients pipeline 1..200 requests for its keys, then behaves again (optionally "
           "dropping its connections): afterwards a fresh connection gets +PONG, the other backend serves a SET within 10 s, the heap grew by "
           "less than 512 MiB and Stop returns within 20 s. A crash of the test process is attributed to the case being executed and "
-          "is a violation. Non-trivial: the input is not valid RESP / not a well-formed reply and differs from every corpus constant. "
+          "is a violation. part requestvalue: decoded request values handed to the real request handler: generated RESP values, supported names with hostile argument shapes, "
+          "and a numeric sweep - one argument position (plus random others) of a command carries the decimal text of an integer within 3 of a limit of a 64/63/48/32/31/16-bit "
+          "integer, a small / negative / signed / over-long number or a non-number (gen.HostileInt); the commands whose arguments the proxy interprets itself (EVAL key counts, SCAN "
+          "cursors, SELECT, multi-key lists) are drawn half of the time: no panic, answered within 3 s. Non-trivial: the input is not valid RESP / not a well-formed reply and differs from every corpus constant. "
           "Distinct by input bytes resp. canonical JSON."),
     assumptions=["heap amplification by wide AND deep arrays (*1048576 nested d times costs d x 64 MiB) is not explored: the statement's memory bound is decided for stack depth and for single over-limit lengths only",
                  "an incomplete reply that is never completed and never closed is a slow backend, not a hostile byte sequence: hostile backends close after incomplete replies"],
@@ -553,7 +566,9 @@ CHECKS["C09"] = dict(
           "half-migrated (ASK) to node 1, 1..3 connections pipeline 1..8 GETs; the first request on its way to node 1 is held at the pause point "
           "between the upstream's quit check and the connection lookup, Stop is called 0..2000 us after the hit and the request is released "
           "0..60 ms later; variants without the pause point and with node 1 accepting only after ~1 s (accept queue full: the connect is "
-          "pending while Stop sweeps the connections). Oracle: Stop returns within 10 s, every client connection is closed, no backend "
+          "pending while Stop sweeps the connections); in two thirds of the cases a host update is delivered right before Stop - the node that answered the redirection "
+          "is removed (OnSvcHostRemove), or all hosts are replaced by the new node / by an equal list (OnSvcAllHostReplace) - from the same goroutine as Stop, which "
+          "is called 0..20 ms after the update returned, as the controller's event loop does (if the update has not returned after 10 s Stop is called all the same, and only a Stop that does not return either is a verdict). Oracle: Stop returns within 10 s, every client connection is closed, no backend "
           "connection (also none that completes after Stop) and no service goroutine remains. Non-trivial: the stop is placed before the bind completed, or with >= 1 connection open, or with a non-responsive backend; "
           "limit: more simultaneous attempts than L, or a drain. Distinct by canonical JSON."),
     assumptions=["'not served' after Stop means connect refused or the connection closed without data (the port may be rebound by others)",
@@ -579,7 +594,12 @@ CHECKS["C20"] = dict(
           "for up to 5 s at quiescence): downstream cx_active == 0 and cx_total == cx_destroy_total (TCP: upstream alike); downstream and "
           "upstream rq_total == rq_success_total + rq_failure_total; per Redis command total == success + error; cx_restricted lies between the "
           "number of connections opened while the model itself was at the limit and the number of all connections closed without "
-          "service (equal in almost every case); no cx_active gauge above 2^62 at any sampling point. Non-trivial: "
+          "service (equal in almost every case); no cx_active gauge above 2^62 at any sampling point. op mass: 4..48 connections opened together and either closed at the same "
+          "instant (FIN/RST mixed; when nothing else is open this is a quiescent point inside the history and the equations are checked there) or kept until the end, where everything open ends together "
+          "or is open at Stop. part churn: a Redis service on an in-memory listener (package memnet through the hook VerifSetListenFunc), 1..400 rounds of 1..64 connections that send one "
+          "PING each and whose peers then vanish at exactly the same instant (one channel close wakes every reader; optionally in two groups 0..40 us apart, optionally the last round ended by Stop, "
+          "optionally a connection limit of 1/3/8): after every round the service is quiescent: cx_total == cx_destroy_total, cx_active == 0, rq_total == success + failure, and cx_restricted equals exactly the number of "
+          "connections the service closed without serving; never more than the limit served at once. Non-trivial: "
           "the history includes a redirection, a backend failure, a limit rejection, or a Stop with >= 1 open connection. Distinct by "
           "canonical JSON."),
     assumptions=["a connection closed without service while the model is below the limit may or may not be a limit rejection (the proxy notices client closes asynchronously; a backend connect can time out on a busy machine), hence the two-sided bound",
